@@ -12,7 +12,12 @@ import time
 
 ROOT = os.path.dirname(os.path.dirname(os.path.abspath(__file__)))
 SPEC = os.path.join(ROOT, "spec")
-HARNESS = os.path.join(ROOT, "harness")
+# development aid (seeded-change experiments): VERIF_ALT=<dir> makes a check build <dir>/harness (a copy of
+# /verif/harness whose path dependency points at a scratch worktree) and keep work/evidence/replays
+# under <dir>, so such experiments never touch /repo, /verif/evidence or a concurrently running check
+ALT = os.environ.get("VERIF_ALT")
+OUTROOT = ALT or ROOT
+HARNESS = os.path.join(OUTROOT, "harness")
 BIN = os.path.join(HARNESS, "target", "release", "zipconf")
 TLA_CP = "/opt/veriftools/tla/tla2tools.jar:/opt/veriftools/tla/CommunityModules-deps.jar"
 NCPU = os.cpu_count() or 4
@@ -34,7 +39,7 @@ def seed():
 
 
 def workdir(pid, tier):
-    d = os.path.join(ROOT, "work", "%s-%s" % (pid, tier))
+    d = os.path.join(OUTROOT, "work", "%s-%s" % (pid, tier))
     shutil.rmtree(d, ignore_errors=True)
     os.makedirs(d)
     return d
@@ -279,7 +284,7 @@ def finding_for(pid, rejection, scenario):
 
 
 def save_replay(pid, name, payload):
-    d = os.path.join(ROOT, "replays")
+    d = os.path.join(OUTROOT, "replays")
     os.makedirs(d, exist_ok=True)
     safe = re.sub(r"[^A-Za-z0-9_.-]", "_", name)[:80]
     p = os.path.join(d, "%s-%s.json" % (pid, safe))
@@ -293,7 +298,7 @@ def digest(obj):
 
 
 def write_evidence(pid, tier, level, coverage, wall, violations, assumptions=None):
-    d = os.path.join(ROOT, "evidence")
+    d = os.path.join(OUTROOT, "evidence")
     os.makedirs(d, exist_ok=True)
     ev = {"property_id": pid, "tier": tier, "seed": seed(), "level": level, "coverage": coverage,
           "assumptions": assumptions or [], "wall_s": round(wall, 2), "violations": violations}
